@@ -52,6 +52,14 @@ EXHAUSTIVE = {"quick": True, "thorough": True}
 SEQ_FORMS = ["list", "tuple", "ndarray", "ndarray_bool", "ndarray_float", "bs", "list_bool"]
 STR_FORMS = ["str", "str_sep"]
 SCALE = 16  # SDD samples are integers / SCALE
+# documented positional order of the anchored functions at /repo HEAD 8caea4c (a literal: never read from the code under test)
+SIGNATURES = {
+    "PPM_ENCODER": ["input", "M"],
+    "PPM_DECODER": ["input", "M"],
+    "HDD": ["input", "M"],
+    "SDD": ["input", "M"],
+    "dec2bin": ["num", "digits"],
+}
 
 
 # ------------------------------------------------------------------------------------------------ helpers
@@ -150,6 +158,33 @@ def _guard(fn, *a):
     if changed:
         d["changed_arg"] = f"{getattr(fn, '__name__', fn)}: argument {changed[0]} ({before[changed[0]][0]}) was modified by the call"
     return d
+
+
+def _twin(fn, name, *a):
+    """the same call with every argument passed by keyword under its documented name (SIGNATURES); the harness's ordinary calls
+    pass them positionally in the documented order.  Returns the fields that must be identical."""
+    names = SIGNATURES[name]
+    d = _guard_kw(fn, dict(zip(names, a)))
+    return {k: d.get(k) for k in ("status", "bits", "err", "exc", "dtype", "ndim")}
+
+
+def _guard_kw(fn, kw):
+    try:
+        with time_limit(30):
+            with warnings.catch_warnings():
+                warnings.simplefilter("ignore")
+                r = fn(**kw)
+        d = _out(r)
+        d["status"] = "ok"
+        return d
+    except Timeout as e:
+        return {"status": "timeout", "detail": str(e)}
+    except Exception as e:  # noqa
+        return {"status": "err", "err": exc_enum(e), "exc": type(e).__name__, "detail": repr(e)[:160]}
+
+
+def _twin_differs(pos, kw):
+    return kw is not None and any(pos.get(k) != kw.get(k) for k in ("status", "bits", "err", "dtype", "ndim"))
 
 
 def is_pow2(M):
@@ -492,28 +527,41 @@ def run_impl(case):
             M = case["M"]
             inp = _mk_input(case["data"])
             enc = _guard(PPM_ENCODER, inp, M)
-            res = {"status": enc["status"], "enc": enc}
+            res = {"status": enc["status"], "enc": enc, "enc_kw": _twin(PPM_ENCODER, "PPM_ENCODER", _mk_input(case["data"]), M)}
             if enc["status"] == "ok":
                 # decode the encoder's output, handed over as the object the encoder returned
                 with time_limit(30):
                     eo = PPM_ENCODER(_mk_input(case["data"]), M)
                 res["dec"] = _guard(PPM_DECODER, eo, M)
+                res["dec_kw"] = _twin(PPM_DECODER, "PPM_DECODER", eo, M)
             return res
         if kind == "dec":
             from opticomlib.ppm import PPM_DECODER
             r = _guard(PPM_DECODER, _mk_input(case["data"]), case["M"])
-            return {"status": r["status"], "dec": r}
+            return {"status": r["status"], "dec": r, "dec_kw": _twin(PPM_DECODER, "PPM_DECODER", _mk_input(case["data"]), case["M"])}
         if kind == "hdd":
             runs = _run_hdd(case)
-            return {"status": runs[0]["status"], "hdd": runs[0], "runs": runs}
+            res = {"status": runs[0]["status"], "hdd": runs[0], "runs": runs}
+            if not case.get("enum"):
+                # keyword twin under the same numpy seed (no spies: the generator must be consumed the same way)
+                import numpy as np
+                from opticomlib.ppm import HDD
+                state = np.random.get_state()
+                try:
+                    np.random.seed(case.get("np_seed", 0))
+                    res["hdd_kw"] = _twin(HDD, "HDD", _mk_input(case["data"]), case["M"])
+                finally:
+                    np.random.set_state(state)
+            return res
         if kind == "sdd":
             from opticomlib.ppm import SDD
             def go():
                 obj = _sdd_input(case, case["xs"], case.get("ns"))
                 # the SAME object is handed over again: every further decision must be the first one
-                return [_guard(SDD, obj, case["M"]) for _ in range(1 + case.get("repeat", 0))]
+                return [_guard(SDD, obj, case["M"]) for _ in range(1 + case.get("repeat", 0))] + \
+                       [_twin(SDD, "SDD", _sdd_input(case, case["xs"], case.get("ns")), case["M"])]
             rs = _with_sps(case["sps"], go)
-            return {"status": rs[0]["status"], "sdd": rs[0], "sdd_again": rs[1:]}
+            return {"status": rs[0]["status"], "sdd": rs[0], "sdd_again": rs[1:-1], "sdd_kw": rs[-1]}
         if kind == "wave":
             from opticomlib.ppm import SDD, HDD, PPM_DECODER
             with time_limit(30):
@@ -543,11 +591,20 @@ def run_impl(case):
             try:
                 with time_limit(30):
                     out = dec2bin(case["num"], case["digits"])
-                return {"status": "ok", "bits": "".join(str(int(b)) for b in out), "dtype": str(out.dtype)}
+                res = {"status": "ok", "bits": "".join(str(int(b)) for b in out), "dtype": str(out.dtype)}
             except Timeout:
                 raise
             except Exception as e:  # noqa
-                return {"status": "err", "err": exc_enum(e), "detail": repr(e)[:160]}
+                res = {"status": "err", "err": exc_enum(e), "detail": repr(e)[:160]}
+            try:
+                with time_limit(30):
+                    outk = dec2bin(**dict(zip(SIGNATURES["dec2bin"], (case["num"], case["digits"]))))
+                res["kw"] = {"status": "ok", "bits": "".join(str(int(b)) for b in outk), "dtype": str(outk.dtype)}
+            except Timeout:
+                raise
+            except Exception as e:  # noqa
+                res["kw"] = {"status": "err", "err": exc_enum(e)}
+            return res
         return {"status": "err", "err": "Other", "detail": "unknown kind"}
     except Timeout as e:
         return {"status": "timeout", "detail": str(e)}
@@ -706,6 +763,15 @@ def oracle(case, res):
     """the statement's clauses first, then the runtime monitor (arguments unchanged by the call)"""
     v = list(_oracle_statement(case, res))
     if not res.get("setup"):
+        for key, pos, name in (("enc_kw", "enc", "PPM_ENCODER"), ("dec_kw", "dec", "PPM_DECODER"), ("hdd_kw", "hdd", "HDD"),
+                               ("sdd_kw", "sdd", "SDD")):
+            if key in res and pos in res and _twin_differs(res[pos], res[key]):
+                v.append((f"C12:positional:{name}", f"{name}({', '.join(SIGNATURES[name])}) called positionally gave "
+                                                    f"{res[pos].get('bits', res[pos].get('exc'))!r:.80} but by keyword "
+                                                    f"{res[key].get('bits', res[key].get('exc'))!r:.80}; case {str(case)[:200]}"))
+        if case["kind"] == "dec2bin" and "kw" in res and any(res.get(k) != res["kw"].get(k) for k in ("status", "bits", "err", "dtype")):
+            v.append(("C12:positional:dec2bin", f"dec2bin({case['num']}, {case['digits']}) positionally {res.get('bits', res.get('err'))!r} "
+                                                f"but dec2bin(num=, digits=) {res['kw'].get('bits', res['kw'].get('err'))!r}"))
         for r in _all_results(res):
             if r.get("args_unchanged") is False:
                 v.append(("C12:mutates-input:" + case["kind"], f"{r.get('changed_arg')}; case {str(case)[:240]}"))
